@@ -42,3 +42,24 @@ package influxql
 //@   ensures [and_above_or] (tok == OR ==> result == 1) && (tok == AND ==> result == 2) && (tok == EQ ==> result == 3)
 //@   ensures [range] 0 <= result && result <= 6
 //@   assigns nothing
+
+// The regex literal is shipped verbatim with only '/' escaped, so the scanner that re-reads it on the store
+// un-escapes '/' and nothing else (a second un-escaping rule would change the regular expression).
+//@ func (*Scanner).ScanRegex
+//@   call ScanDelimited
+//@     requires [only_slash_is_unescaped] len(arg3) == 1 && (47 in arg3) && arg3[47] == 47
+
+// A measurement source is printed as  db "." rp "." name  with the SECOND dot present whenever a database or a
+// policy is: db..name (explicit database, default policy) must not collapse to db.name, which re-parses as
+// policy "db".
+//@ func (*Measurement).RenderBytes
+//@   requires m != nil
+//@   ghost dots int = 0
+//@   call .WriteString with "."
+//@     set dots = dots + 1
+//@     frame nothing
+//@   call .WriteString
+//@     frame nothing
+//@   call QuoteIdent
+//@     frame nothing
+//@   ensures [separators] (old(m.Database) != "" ==> dots == 2) && (old(m.Database) == "" && old(m.RetentionPolicy) != "" ==> dots == 1) && (old(m.Database) == "" && old(m.RetentionPolicy) == "" ==> dots == 0)
